@@ -1,6 +1,7 @@
 (* Props/C11.v -- property theorems for C11 only. *)
 From LV Require Import Base FS FSFacts LayerShared LayerSharedFacts LayerSharedGone LayerSharedTotal.
-From LVGen Require Import GenLayerShared.
+From LV Require Import ImpPrims ImpTypes.
+From LVGen Require Import GenLayerShared GenLayerSharedImp.
 
 Theorem c11_tables :
   rdr_checks_symlink = true /\ delete_layer_removes_sboms = true /\
@@ -10,6 +11,52 @@ Theorem c11_tables :
   sbom_suffixes = spec_sbom_suffixes /\ sbom_formats_all_have_suffix = true.
 Proof. repeat split; reflexivity. Qed.
 Print Assumptions c11_tables.
+
+Definition suffix_of (f : sbom_format) : bytes :=
+  match f with
+  | CycloneDxJson => [99; 100; 120; 46; 106; 115; 111; 110]
+  | SpdxJson => [115; 112; 100; 120; 46; 106; 115; 111; 110]
+  | SyftJson => [115; 121; 102; 116; 46; 106; 115; 111; 110]
+  end.
+
+Lemma bind_ret_tt (m : M unit) s : (m ;;; ret tt) s = m s.
+Proof. unfold bindM, ret. destruct (m s) as [s' [[]|e]]; reflexivity. Qed.
+
+Lemma bindM_ext (m1 m2 k1 k2 : M unit) s :
+  m1 s = m2 s -> (forall s', k1 s' = k2 s') -> (m1 ;;; k1) s = (m2 ;;; k2) s.
+Proof. intros H K. unfold bindM. rewrite H. destruct (m2 s) as [s' [u|e]]; [apply K|reflexivity]. Qed.
+
+Lemma iterM_ext {A} (f g : A -> M unit) l : (forall x s, f x s = g x s) -> forall s, iterM f l s = iterM g l s.
+Proof.
+  intros H. induction l as [|x l IH]; intros s; cbn [iterM]; [reflexivity|].
+  unfold bindM. rewrite H. destruct (g x s) as [s' [u|e]]; [apply IH|reflexivity].
+Qed.
+
+Lemma iterM_map {A B} (h : A -> B) (f : B -> M unit) l s : iterM f (map h l) s = iterM (fun x => f (h x)) l s.
+Proof.
+  revert s. induction l as [|x l IH]; intros s; cbn [map iterM]; [reflexivity|].
+  unfold bindM. destruct (f (h x) s) as [s' [u|e]]; [apply IH|reflexivity].
+Qed.
+
+(* shared::delete_layer, sbom::cnb_sbom_path and SBOM_FORMATS as the translator reads them from the source
+   statement by statement (imp.rs, result monad -> GenLayerSharedImp.v) ARE the model's delete_layer (with
+   both repairs): the frame / gone / completeness theorems below are about the code's own statements,
+   re-derived from /repo on every run.  remove_dir_recursively itself stays a hand-written model (rdr)
+   tied by the shape facts of c11_tables and by correspondence. *)
+Theorem c11_delete_layer_regenerated :
+  map suffix_of SBOM_FORMATS = spec_sbom_suffixes /\
+  forall layers n s, gen_delete_layer layers n s = delete_layer true true spec_sbom_suffixes layers n s.
+Proof.
+  split; [reflexivity|]. intros layers n s. unfold gen_delete_layer, delete_layer.
+  change spec_sbom_suffixes with (map suffix_of SBOM_FORMATS).
+  apply bindM_ext; [reflexivity|]. intros s1.
+  apply bindM_ext; [reflexivity|]. intros s2.
+  rewrite bind_ret_tt, iterM_map. apply iterM_ext. intros f s3. rewrite bind_ret_tt.
+  destruct f; reflexivity.
+Qed.
+Print Assumptions c11_delete_layer_regenerated.
+
+
 
 (* remove_dir_recursively: whatever the tree below [d] looks like -- nested read-only or
    non-executable directories, symlinks to files or directories anywhere, dangling or cyclic
